@@ -62,6 +62,8 @@ inductive Instr
   | mark (m : Mark)                      -- user hook of the loop task (observable)
   | publish                              -- `_receive_signal`: the whole critical section `with cond: append; notify_all()`
   -- thread-local (fused)
+  | ldStateIn (mask : Nat)               -- acc := `self._state in {members whose bit is set in mask}` (under `_state_cond`)
+  | stState (v : Nat)                    -- `self._state = <member v>` (under `_state_cond`)
   | ldPred                               -- acc := predicate()   (queue non-empty; caller holds the condition's lock)
   | push | pop                           -- queue append (bounded) / popleft
   | ldLoc (i : Nat) | stLoc (i : Nat) | ldConst (b : Bool) | neg
@@ -96,7 +98,7 @@ inductive Status | run | done | raised (e : Ex) | crashed
 
 inductive Park
   | no
-  | cond (notified : Bool)
+  | cond (l : Nat) (notified : Bool)     -- parked on the condition whose lock is `l`
   | ev
   | sleep
   deriving DecidableEq, Repr
@@ -123,6 +125,7 @@ structure St where
   lsc : Option Nat
   lqc : Option Nat
   fin : Nat                    -- how often `loop_finalize` ran
+  tstate : Nat                 -- `_TaskThread._state` (index of the member of `_TaskThread.State`)
   ths : List Th
   deriving DecidableEq, Repr
 
@@ -137,7 +140,7 @@ structure Sys where
 inductive Lbl
   | lock (l : Nat) | unlock (l : Nat)          -- 0 wcl, 1 sc, 2 condition lock
   | setFlag | ldFlag (v : Bool) | ldWc (v : Bool) | stWc (b : Bool)
-  | park | reacq (byNotify : Bool) | notify
+  | park | reacq (byNotify : Bool) | notify (l : Nat)
   | evCheck | evPark | evWake (bySet : Bool)
   | slPark | slWake
   | mark (m : Mark)
@@ -204,6 +207,8 @@ def silent1 (sys : Sys) (s : St) (t : Th) : Option (List (St × Th)) :=
     | some i =>
       let nx : Th := { t with pc := t.pc + 1 }
       match i with
+      | .ldStateIn m => some [(s, { nx with acc := (m >>> s.tstate) % 2 == 1 })]
+      | .stState v => some [({ s with tstate := v }, nx)]
       | .ldPred => some [(s, { nx with acc := decide (0 < s.qlen) })]
       | .push => some [({ s with qlen := if s.qlen < sys.cap then s.qlen + 1 else s.qlen }, nx)]
       | .pop => if s.qlen = 0 then some [(s, t.crash)] else some [({ s with qlen := s.qlen - 1 }, nx)]
@@ -271,8 +276,10 @@ def isTimed (t : Th) : TOut → Bool
   | .always => true
   | .param => t.timed
 
-def notifyThreads (ths : List Th) : List Th :=
-  ths.map fun t => match t.park with | .cond false => { t with park := .cond true } | _ => t
+def notifyThreads (l : Nat) (ths : List Th) : List Th :=
+  ths.map fun t => match t.park with
+    | .cond l' false => if l' == l then { t with park := .cond l' true } else t
+    | _ => t
 
 /-- the interleaving step of thread `tid` (before thread-local fusion) -/
 def visStep (sys : Sys) (s : St) (tid : Nat) (t : Th) : List (Lbl × St × Th) :=
@@ -302,7 +309,7 @@ def visStep (sys : Sys) (s : St) (tid : Nat) (t : Th) : List (Lbl × St × Th) :
         match lockId t r with
         | none => [(.crash, s, t.crash)]
         | some l =>
-          if s.owner l = some tid then [(.notify, { s with ths := notifyThreads s.ths }, nx)]
+          if s.owner l = some tid then [(.notify l, { s with ths := notifyThreads l s.ths }, nx)]
           else [(.crash, s, t.crash)]                                     -- RuntimeError: un-acquired lock
       | .condWait r to =>
         match lockId t r with
@@ -310,9 +317,9 @@ def visStep (sys : Sys) (s : St) (tid : Nat) (t : Th) : List (Lbl × St × Th) :
         | some l =>
           match t.park with
           | .no =>
-            if s.owner l = some tid then [(.park, s.setOwner l none, { t with park := .cond false })]
+            if s.owner l = some tid then [(.park, s.setOwner l none, { t with park := .cond l false })]
             else [(.crash, s, t.crash)]
-          | .cond n =>
+          | .cond _ n =>
             if s.owner l = none then
               (if n then [(Lbl.reacq true, s.setOwner l (some tid), { nx with park := .no, acc := true })] else []) ++
               (if isTimed t to then
@@ -334,7 +341,7 @@ def visStep (sys : Sys) (s : St) (tid : Nat) (t : Th) : List (Lbl × St × Th) :
       | .publish =>
         -- one action (DESIGN §3): a critical section under one lock that touches only state protected by that lock
         if s.lqc = none then
-          [(.publish, { s with qlen := if s.qlen < sys.cap then s.qlen + 1 else s.qlen, ths := notifyThreads s.ths }, nx)]
+          [(.publish, { s with qlen := if s.qlen < sys.cap then s.qlen + 1 else s.qlen, ths := notifyThreads 2 s.ths }, nx)]
         else []
       | .mark m =>
         [(.mark m, (match m with | .finalize => { s with fin := if s.fin < 2 then s.fin + 1 else s.fin } | _ => s), nx)]
@@ -382,7 +389,7 @@ states is decided by the hand-written `St.beq` (the derived `DecidableEq` instan
 reduction); `Lemmas/C11.lean` proves `St.beq a b = true → a = b`. -/
 
 def Park.code : Park → Nat
-  | .no => 0 | .cond false => 1 | .cond true => 2 | .ev => 3 | .sleep => 4
+  | .no => 0 | .ev => 1 | .sleep => 2 | .cond l false => 3 + 2 * l | .cond l true => 4 + 2 * l
 
 def Status.code : Status → Nat
   | .run => 0 | .done => 1 | .raised .stop => 2 | .raised .timeout => 3 | .crashed => 4
@@ -417,13 +424,13 @@ def thsBeq : List Th → List Th → Bool
 
 def St.beq (a b : St) : Bool :=
   boolBeq a.flag b.flag && boolBeq a.wc b.wc && a.qlen == b.qlen && optNatBeq a.lwcl b.lwcl &&
-  optNatBeq a.lsc b.lsc && optNatBeq a.lqc b.lqc && a.fin == b.fin && thsBeq a.ths b.ths
+  optNatBeq a.lsc b.lsc && optNatBeq a.lqc b.lqc && a.fin == b.fin && a.tstate == b.tstate && thsBeq a.ths b.ths
 
 def Th.key (t : Th) : Nat :=
-  ((((t.pc * 16 + t.fn) * 8 + t.park.code) * 8 + t.status.code) * 2 + t.acc.toNat) * 64 + t.locs % 64
+  ((((t.pc * 16 + t.fn) * 16 + t.park.code) * 8 + t.status.code) * 2 + t.acc.toNat) * 64 + t.locs % 64
 
 def St.key (s : St) : Nat :=
-  s.ths.foldl (fun k t => k * 1048576 + t.key) (s.qlen * 4 + s.flag.toNat * 2 + s.wc.toNat)
+  s.ths.foldl (fun k t => k * 1048576 + t.key) ((s.tstate * 4 + s.qlen) * 4 + s.flag.toNat * 2 + s.wc.toNat)
 
 abbrev Buckets := List (List (Nat × St))
 
@@ -488,7 +495,7 @@ def Th.isParked (t : Th) : Bool := match t.park with | .no => false | _ => true
 def Th.wakePending (s : St) (t : Th) : Bool :=
   match t.park with
   | .no => true
-  | .cond n => n                 -- notified, only has to re-acquire
+  | .cond _ n => n               -- notified, only has to re-acquire
   | .ev => s.flag                -- `Event.set` wakes waiters of the event itself
   | .sleep => false
 
